@@ -25,6 +25,48 @@ META = {
     },
 }
 
+TWOWAY = (" The binding is two-way: every behaviour TLC emits is replayed into the real entry points and compared under "
+          "the property's own relation, and runs of the real code larger than TLC enumerates are recorded as event traces "
+          "that TLC accepts only if they are behaviours of the trace specification (all invariants evaluated at every "
+          "step). Bounded model checking plus conformance, not a proof.")
+NOTE = ("TLC and the TLA+ modules are trusted; values are small integers/NULL (exact arithmetic in the spec, rounding "
+        "tolerance 1e-9 relative in the comparison); bounds and alphabets are in the evidence file of each run.")
+
+META.update({
+    "C01": {
+        "text": "RollKernels.tla models the code's running accumulators (n, power sums, rank-weighted sum, shifted-subtraction "
+                "numerator) as a streaming machine and Stats.tla the from-scratch definitions in exact rationals; TLC checks "
+                "NoDrift, MomentsAgree and OutDef after every step of every history within the bound (BFS) and of random deep "
+                "histories (simulation)." + TWOWAY,
+        "note": NOTE + " Plain family on null-free series (DESIGN 5.7); skew/kurt bound by replay only.",
+        "design": "DESIGN.md section 6 C01, section 4 RollKernels",
+    },
+    "C03": {
+        "text": "The extrema cache with its rescan-on-expiry, the rank recount, z-score and min-max normalisation are in "
+                "RollKernels.tla; TLC checks OutDef (least/greatest valid element, most recent arg, average rank, null on "
+                "zero spread) and CacheInWindow on tie-heavy bounded histories and simulated plateau/monotone runs; min, max, "
+                "arg and rank are compared exactly." + TWOWAY,
+        "note": NOTE + " Omitted min_periods of the extrema family for len >= w only (DESIGN 5.3).",
+        "design": "DESIGN.md section 6 C03",
+    },
+    "C04": {
+        "text": "RollKernels2.tla models the cross sums of the two-series kernels against normal-equation least squares over "
+                "pairwise-complete observations with explicit residuals; the trend family is in RollKernels.tla; TLC checks "
+                "NoDrift2, OutDef2, MaskLaw2 and PerfectLineZeroResidual over all pairs of series within the bound." + TWOWAY,
+        "note": NOTE + " Constant regressor / zero variance windows are unspecified (DESIGN 5.6); SSE and residual std/skew "
+                "bound by replay only.",
+        "design": "DESIGN.md section 6 C04",
+    },
+    "C05": {
+        "text": "MaskLaw and LenOK of RollKernels / RollKernels2 state the null pattern (count below min(min_periods,w) or "
+                "below the intrinsic minimum) and one-output-per-input; TLC checks them for every null pattern, length "
+                "(incl. 0 and len < w), window and min_periods within the bound; the replay compares null pattern and length "
+                "of every entry point and treats any panic as a violation." + TWOWAY,
+        "note": NOTE + " Undefined statistics leave the pattern open (DESIGN 5.6).",
+        "design": "DESIGN.md section 6 C05",
+    },
+})
+
 DEFAULT_NA = "check not built yet in this round (work in progress; see DESIGN.md section 11)"
 
 
